@@ -209,7 +209,7 @@ def gen_const(rng, allow_abs=True, min_parts=0):
     n = rng.weighted([(0, 1), (1, 5), (2, 4), (3, 2)])
     n = max(n, min_parts)
     s = '/'.join(rng.choice(_GEN['components']) for _ in range(n))
-    if allow_abs and rng.chance(0.10):
+    if allow_abs and _GEN['abs_prefixes'] != 'none' and rng.chance(0.10):
         if _GEN['abs_prefixes'] is not None:
             s = rng.choice(_GEN['abs_prefixes']) + '/' + s
         else:
@@ -1236,6 +1236,167 @@ def run_ecases(ctx, res, im, scratch):
         res.samples.append(info_of(cases[min(len(cases) - 1, len(E_CORPUS) + 3)]))
 
 
+# ---------------------------------------------------------------------------------------------
+# a way of running: the case as the 2nd / 3rd MEMBER of a suite whose suite file carries the instruction and the newer
+# definitions (parsed once, shared by all cases) while every case binds the older symbols itself, differently
+# ---------------------------------------------------------------------------------------------
+import re as _re
+_SUITE_CASE_LINE = _re.compile(r'^case  (.*): \([0-9.]+s\) ([A-Z_]+)$')
+S_COMPONENTS = ['a', 'b', 'sub', '.', 'c', 'd.e']
+
+
+def has_unknown(defs, arg):
+    return any(d[1] == 'path' and d[2][0][0] in ('unknown',) for d in defs) or arg[0][0] == 'unknown'
+
+
+def gen_suite(rng, i):
+    """-> (phase, head variants [defs per member], tail defs, instruction kind, argument)"""
+    _GEN['components'], _GEN['abs_prefixes'] = S_COMPONENTS, 'none'
+    try:
+        while True:
+            defs = gen_defs(rng)
+            arg = gen_arg(rng, defs, False)
+            paths = [k for k, d in enumerate(defs) if d[1] == 'path']
+            if not paths or any(d[1] == 'path' and d[2][1] is None for d in defs) or has_unknown(defs, arg):
+                continue
+            if len({d[0] for d in defs}) != len(defs):
+                continue
+            if count_dotdot(defs, arg) > 0 or not stays_inside('/nonexistent-root', defs, arg):
+                continue  # no "..", no absolute strings in suite members: nothing may then appear outside a sandbox
+            break
+    finally:
+        _GEN['components'], _GEN['abs_prefixes'] = COMPONENTS, None
+    k = rng.randint(paths[0] + 1, len(defs))  # the head holds at least the first path definition
+    head, tail = defs[:k], defs[k:]
+    n_members = rng.randint(2, 3)
+    heads = []
+    for j in range(n_members):
+        h = []
+        for d in head:
+            if d[1] == 'path' and d[2][0][0] == 'opt' and (j > 0 or rng.chance(0.5)):
+                # the same definition with another relativity: half of them legal for a destination
+                r = rng.choice(['RAct', 'RTmp', 'RCwd']) if rng.chance(0.5) else rng.choice(['RHdsCase', 'RHdsAct', 'RResult'])
+                h.append((d[0], 'path', (('opt', r), d[2][1])))
+            else:
+                h.append(d)
+        heads.append(h)
+    ph = rng.choice(['before-assert', 'assert', 'cleanup'])
+    instr = rng.choice(['file', 'dir', 'copy'])
+    arg = with_final(arg, 'MARK%d' % i)
+    return ph, heads, tail, instr, arg
+
+
+def suite_files(ph, heads, tail, instr, arg):
+    line = {'file': "file %s = 'M'", 'dir': 'dir %s', 'copy': 'copy -rel-home src.txt %s'}[instr] % render_arg(arg)
+    files = {'the.suite': '\n'.join(['[cases]'] + ['m%d.case' % j for j in range(len(heads))] + ['[%s]' % ph] +
+                                    ['def ' + render_def(d) for d in tail] + [line]) + '\n'}
+    for j, h in enumerate(heads):
+        files['m%d.case' % j] = '\n'.join(['[setup]'] + ['def ' + render_def(d) for d in h] + ['[act]', '$ true']) + '\n'
+    return files
+
+
+S_CORPUS = [
+    # the relativity of a suite-level definition is that of the symbol THIS case binds: act first, then home; and the reverse
+    ('before-assert', [[('P1', 'path', (('opt', 'RAct'), ('plain', [('c', 'd')])))], [('P1', 'path', (('opt', 'RHdsCase'), ('plain', [('c', 'h')])))]],
+     [('P2', 'path', (('sym', 'P1'), ('plain', [('c', 'sub')])))], 'file', (('sym', 'P2'), ('plain', [('c', 'MARK')]))),
+    ('cleanup', [[('P1', 'path', (('opt', 'RHdsCase'), ('plain', [('c', 'h')])))], [('P1', 'path', (('opt', 'RTmp'), ('plain', [('c', 'd')])))],
+                 [('P1', 'path', (('opt', 'RHdsAct'), ('plain', [('c', 'h')])))]],
+     [('P2', 'path', (('none',), ('plain', [('s', 'P1'), ('c', '/sub')])))], 'dir', (('none',), ('plain', [('s', 'P2'), ('c', '/MARK')]))),
+]
+
+
+def run_scases(ctx, res, im, scratch):
+    rng = ctx.rng
+    n = size_of(ctx, 70, 900)
+    conf_by_label = {c[0]: c for c in im.confs}
+    sbx = os.path.join(scratch, 'suite-sandboxes')
+    os.makedirs(sbx)
+    mp = impl.main_program(sbx)
+    members = []
+    for i in range(len(S_CORPUS) + n):
+        ph, heads, tail, instr, arg = S_CORPUS[i] if i < len(S_CORPUS) else gen_suite(rng, i)
+        marker = 'MARK' if i < len(S_CORPUS) else 'MARK%d' % i
+        # safety net and judged set: resolve every member in process first; a resolved path with a ".." component (possible through
+        # string concatenation) or an absolute one could put something outside a sandbox without any violation
+        skip = False
+        for h in heads:
+            _, pre = im.observe(h + tail, conf_by_label[instr + ':destination'][2], arg)
+            if pre[0] == 'AResolved' and ('..' in pre[3].split('/') or not any(
+                    (pre[3] + '/').startswith(b + '/') for b in ('/S', scratch))):
+                skip = True
+        if skip:
+            res.count('suite skipped: a member path has a ".." component or is not below a sandbox directory')
+            continue
+        root = os.path.join(scratch, 's%d' % i)
+        home = os.path.join(root, 'home')
+        os.makedirs(home)
+        with open(os.path.join(home, 'src.txt'), 'w') as f:
+            f.write('HOME')
+        files = suite_files(ph, heads, tail, instr, arg)
+        for fn, txt in files.items():
+            with open(os.path.join(home, fn), 'w') as f:
+                f.write(txt)
+        before = snapshot(home)
+        pr = impl.run_main(mp, ['suite', 'the.suite'], home, root)
+        after = snapshot(home)
+        found = sorted(os.path.join(dp, x) for dp, dn, fn in os.walk(scratch) for x in dn + fn if x == marker)
+        verdicts = {}
+        for line in pr.out.splitlines():
+            m = _SUITE_CASE_LINE.match(line)
+            if m:
+                verdicts[m.group(1)] = VERDICTS.get(m.group(2), 'EOther')
+        invalid = pr.out.strip().endswith('INVALID_SUITE')
+        for j, h in enumerate(heads):
+            v = 'ESyntax' if invalid else verdicts.get('m%d.case' % j, 'EOther')
+            if pr.exception is not None:
+                v = 'EOther'
+            members.append({'suite': i, 'member': j, 'defs': h + tail, 'arg': arg, 'label': instr + ':destination', 'home': home,
+                            'verdict': v, 'created': found, 'home_changed': before != after, 'files': files, 'phase': ph,
+                            'stdout': pr.out[-600:], 'stderr': pr.err[-400:].replace(root, '<ROOT>')})
+            res.count('suite member #%d verdict %s' % (j, v))
+        res.count('suite of %d cases, instruction in %s' % (len(heads), ph))
+        res.nontrivial.add(('s', repr(files)))
+        for x in os.listdir(sbx):
+            shutil.rmtree(os.path.join(sbx, x), ignore_errors=True)
+        shutil.rmtree(root, ignore_errors=True)
+
+    def term(mb):
+        conf = conf_by_label[mb['label']][3]
+        env = '(Env (parse_pp %s) (parse_pp %s) (parse_pp %s) (parse_pp %s))' % (ctext(mb['home']), ctext(mb['home']),
+                                                                                 ctext('/SANDBOX'), ctext('/SANDBOX/act'))
+        return '(ECase EKCreate %s %s %s %s %s (@nil (text * N)) %s %s None %s)' % (
+            ctext(mb['home']), clist([c_def(d) for d in mb['defs']]) if mb['defs'] else '(@nil (sym * sdef))', c_conf(conf),
+            c_arg(mb['arg']), env, mb['verdict'],
+            clist([ctext(p) for p in mb['created']]) if mb['created'] else '(@nil text)', cbool(mb['home_changed']))
+
+    def info_of(mb):
+        root = os.path.dirname(mb['home'])
+        return {'level': 'suite', 'input': {'defs': mb['defs'], 'label': mb['label'], 'arg': mb['arg']},
+                'suite_directory': {k: v for k, v in mb['files'].items()}, 'run': 'exactly suite the.suite (in the suite directory; '
+                'add a file src.txt)', 'judged_member': 'm%d.case' % mb['member'], 'instruction_in_suite_file_phase': mb['phase'],
+                'observed': {'verdict_of_member': mb['verdict'], 'stdout': mb['stdout'],
+                             'visible_after_the_run': [p.replace(root, '<ROOT>') for p in mb['created']],
+                             'home_directory_changed': mb['home_changed']}}
+    terms = [term(mb) for mb in members]
+    cb, pb, errs = common.run_shards('C12', ['Model.Paths', 'Spec.C12'], 'check_mcase', terms, tag='mcases', shard_size=200)
+    res.errors += errs
+    for i in pb:
+        mb = members[i]
+        known = kf_applies(mb['defs'], mb['arg'], True)
+        info = info_of(mb)
+        info['known_finding_predicate_holds'] = known
+        res.prop_failures.append(Failure(
+            'property', info, 'run as a member of a suite, a destination whose documented relativity (with the definitions of THIS case) '
+            'is not act/tmp/cd was not rejected before execution, or something was created outside the sandbox / in the home directory',
+            finding=KF if known else None))
+    for i in cb:
+        res.disagreements.append(Failure('correspondence', info_of(members[i]),
+                                         'the verdict of the case as member of a suite differs from the model of the case run alone'))
+    res.evaluations += len(members)
+    if members:
+        res.samples.append(info_of(members[min(len(members) - 1, 7)]))
+
+
 def _e(kind, ph, after, defs, arg, label, cd, line_fmt):
     def mk(root):
         home = os.path.join(root, 'home')
@@ -1416,6 +1577,7 @@ def run(ctx, res):
         run_icases(ctx, res, im, pcases)
         run_i2cases(ctx, res, im, getattr(ctx, 'c12_seed_defs', None))
         run_ecases(ctx, res, im, scratch)
+        run_scases(ctx, res, im, scratch)
     finally:
         os.chdir(old)
         shutil.rmtree(scratch, ignore_errors=True)
